@@ -32,7 +32,7 @@ func init() { logging.Logger = quiet{} }
 
 // Options selects the broker configuration.
 type Options struct {
-	LicenseVersion int    // 1, 2 or 3 (default 3)
+	LicenseVersion int    // 1, 2 or 3 (default 3); 4 = version 1 with a zero contract signature
 	Matcher        string // "" (emitter) or "mqtt"
 	Storage        string // "noop" (default), "inmemory", "ssd"
 	StorageDir     string
@@ -73,6 +73,10 @@ func pattern(n int, seed byte) []byte {
 // FixedLicense returns a deterministic license of the given version.
 func FixedLicense(version int, seed byte) license.License {
 	switch version {
+	case 4:
+		// version 4 = a v1 license whose contract signature is 0 (the broker's well-known sample license is like
+		// that): a field value at its boundary, same cipher as version 1
+		return &license.V1{EncryptionKey: base64.RawURLEncoding.EncodeToString(pattern(16, seed)), User: 0x01020304 + uint32(seed), Sign: 0, Expires: time.Unix(0, 0), Type: license.LicenseTypeOnPremise}
 	case 1:
 		return &license.V1{EncryptionKey: base64.RawURLEncoding.EncodeToString(pattern(16, seed)), User: 0x01020304 + uint32(seed), Sign: 0x0a0b0c0d, Expires: time.Unix(0, 0), Type: license.LicenseTypeOnPremise}
 	case 2:
